@@ -12,13 +12,25 @@ import TeleportModel.Driver.Loop
    gdup agg <n> (erc20hex denomhex)… | gdup rv <n> denomhex…  -> ok | err
    tev <R> <n> keyhex…                                       -> keys in emitted order
    etime <blockTime> <parentTime> <headerTime>               -> ok | future | old
+   rfork <id> <live|fork> , rpollute <id> <what…>             -> ok      (node 2 := fork of node 1 ; discarded execution on node 1)
+   rblock <id> <kind> <digest1> <digest2>                     -> same <digest1>   (the model predicts agreement)
    The replay part is thin by design: the model re-decides agreement of the two recorded streams. -/
 namespace TM.Driver.C14
 open TM TM.Determinism
 
-abbrev St := Replay
+/-- the replica part of the driver instantiates the abstract machine: committed state = the list of executed block
+    ids, result = the block id seen on top of the committed state — a function of (committed, block) only -/
+def repMachine : Machine (List String) String String :=
+  ⟨fun s b => (b :: s, b ++ "@" ++ toString s.length)⟩
+
+structure St where
+  rep : Replay := {}
+  n1 : Node (List String) := ⟨[]⟩
+  n2 : Node (List String) := ⟨[]⟩
 
 def fresh : St := {}
+
+def lift (st : St) (r : Replay × String) : St × String := ({ st with rep := r.1 }, r.2)
 
 def natOfBytes (b : Bytes) : Nat := b.foldl (fun acc x => acc * 256 + x.toNat) 0
 
@@ -137,12 +149,20 @@ def step (st : St) (line : String) : St × String :=
   match fields line with
   | ["site", _, _, _, _, d] => (st, if dischargeOk d then "discharged" else "uninventoried")
   | ["site", _, _, _, _, d, _] => (st, if dischargeOk d then "discharged" else "uninventoried")
-  | "pair" :: _ => (fresh, "ok")
+  | "pair" :: _ => ({ st with rep := {} }, "ok")
   | "script" :: _ => (st, "ok")
-  | ["obs", _, _, a, b] => stepOp st (.obs a b)
+  | ["obs", _, _, a, b] => lift st (stepOp st.rep (.obs a b))
+  -- replica histories (harness/c14_replica_test.go): node 2 is a fresh fork, discarded executions run on node 1 only,
+  -- the block is executed by both; the model predicts equal results (Proofs: replicas_agree)
+  | ["rfork", _, _] => ({ st with n2 := Machine.forkOf st.n1 }, "ok")
+  | "rpollute" :: _ :: what => ({ st with n1 := repMachine.discard st.n1 (joinWith " " what) }, "ok")
+  | ["rblock", id, kind, d1, _] =>
+    let r1 := repMachine.exec st.n1 (id ++ ":" ++ kind)
+    let r2 := repMachine.exec st.n2 (id ++ ":" ++ kind)
+    ({ st with n1 := r1.1, n2 := r2.1 }, if r1.2 = r2.2 then "same " ++ d1 else "model-diverged")
   | ["end", _, na, nb] =>
     match na.toNat?, nb.toNat? with
-    | some x, some y => stepOp st (.fin x y)
+    | some x, some y => lift st (stepOp st.rep (.fin x y))
     | _, _ => (st, "bad-op")
   | "bscp" :: _ :: args => (st, bscp args)
   | "relp" :: _ :: args => (st, relp args)
